@@ -1835,16 +1835,20 @@ class DecayGroup(BaseDecayGroup, AmpBase):
     @functools.lru_cache()
     def get_swap_factor(self, key):
         factor = 1.0
-        used = []
         for i, j in zip(self.identical_particles, key[1]):
             p = self.get_particle(i[0])
             if int(p.J * 2) % 2 == 0:
                 continue
-            for m, n in zip(i, j):
-                if (m, n) in used or (n, m) in used:
-                    continue
-                used.append((m, n))
-                if m != n:
+            # sign of the permutation i -> j: every cycle of even length is odd
+            perm = dict(zip(i, j))
+            seen = set()
+            for m in i:
+                length = 0
+                while m not in seen:
+                    seen.add(m)
+                    m = perm[m]
+                    length += 1
+                if length > 0 and length % 2 == 0:
                     factor *= -1.0
         return factor
 
